@@ -70,7 +70,7 @@ def min_required(tier):
 
 
 FAULT_CONC = [
-    ("p3->X", [P.st("p3", "X")], [P.st("p1", "X"), P.st("p2", "X")], "object"),
+    ("p1.v2->X", [P.st("p1.v2", "X")], [P.st("p1", "X"), P.st("p2", "X")], "object"),
     ("p2->X", [P.st("p2", "X")], [P.tag("p1", "X"), P.dele("p2")], "object"),
     ("p1->X", [P.st("p1", "X")], [P.st("p1", "Y"), P.dele("p1")], "object"),
     ("p1,p2->X", [P.st("p1", "X"), P.st("p2", "X")], [P.dele("p1"), P.dele("p2")], "object"),
@@ -92,7 +92,7 @@ def run_faultconc(idx, bound, n_random, sub_seed):
     rng = random.Random(sub_seed)
     sname, start, calls, kind = FAULT_CONC[idx]
     scn = C.Scenario(f"{sname}|" + "||".join(P.call_name(o) for o in calls) + "|+fault", start, calls, P.SPEC,
-                     P.DOCS if kind == "meta" else None, pids=["p1", "p2", "p3"] if kind == "object" else ["p1"],
+                     P.DOCS if kind == "meta" else None, pids=["p1", "p2", "p1.v2"] if kind == "object" else ["p1"],
                      fmts=[None] if kind == "object" else [None, "f1", "f2", "followup"], start_class=sname)
     scratch = new_scratch("fc")
     try:
